@@ -24,7 +24,7 @@ CLAIMS = {
                    'command always reaches a function that releases on all of its paths, Abort releases all '
                    'active edges; process-exit sites reachable while slots are held are enumerated against a '
                    'reasoned table; Jobserver::Slot cannot be copied or forged (compile-fail witnesses); the '
-                   'console pool is the depth-1 pool. A moved-from Jobserver::Slot is invalid on every path of both move operations (release-twice is a no-op). RealCommandRunner::GetActiveEdges reports every entry of subproc_to_edge_ (Abort/Cleanup/ClearJobTokens act on that list); an explicit -j (and -n) disables the jobserver client and only a jobserver client lifts the parallelism bound; targets planned during the build are followed by a scheduling pass for ready edges.',
+                   'console pool is the depth-1 pool. A moved-from Jobserver::Slot is invalid on every path of both move operations (release-twice is a no-op). RealCommandRunner::GetActiveEdges reports every entry of subproc_to_edge_ (Abort/Cleanup/ClearJobTokens act on that list); an explicit -j (and -n) disables the jobserver client and only a jobserver client lifts the parallelism bound; targets planned during the build are followed by a scheduling pass for ready edges. SubprocessSet::running_ keeps its order while the pollfd array built from it is in use; a completion that is already queued is handed out without calling DoWork() again.',
         'not_decided': 'the numeric -j / load-average capacity formula (CanRunMore), "never idles" and '
                        '"always terminates" (liveness).',
     },
@@ -55,7 +55,7 @@ CLAIMS = {
                    'the loader entry; scan-time loads happen only behind the pending test and never while the '
                    'producer still has to run; at build time every output of a finished edge is examined, the '
                    'plan walk skips an edge only if it is ready or not in the plan; parsed paths are '
-                   'canonicalised before interning. On every visit of an edge the scan stats its outputs before computing their dirtiness; validations found by a mid-build re-scan are planned unconditionally and followed by a scheduling pass.',
+                   'canonicalised before interning. On every visit of an edge the scan stats its outputs before computing their dirtiness; validations found by a mid-build re-scan are planned unconditionally and followed by a scheduling pass. The re-check used by restat pruning stores exactly the verdict of all(most_recent_input) (no shortcut while a dyndep file is pending).',
         'not_decided': 'equivalence with the manifest that has the information written in; schedule-dependent '
                        're-want logic in RefreshDyndepDependents.',
     },
@@ -68,7 +68,7 @@ CLAIMS = {
                    'a message; validation nodes are queued and never recursed into, AllInputsReady ignores them, '
                    'the driver clears the stack per queued node; after a dyndep load the re-scanned nodes are '
                    'exactly those un-marked beforehand and an in-plan dependent is never left marked; a failed '
-                   'scan / VerifyDAG never becomes a success return (graph.cc, AddTarget, dyndep re-plan). Plan::UnmarkDependents descends through every not-yet-visited output (no other pruning); a dyndep load issued by the scan machinery is followed by a re-scan of the dependents (known finding: scan-time load in RecomputeNodeDirty); Builder::Build returns the recorded exit code only after a command failure was recorded and never ExitSuccess after storing an error text.',
+                   'scan / VerifyDAG never becomes a success return (graph.cc, AddTarget, dyndep re-plan). Plan::UnmarkDependents descends through every not-yet-visited output (no other pruning); a dyndep load issued by the scan machinery is followed by a re-scan of the dependents (known finding: scan-time load in RecomputeNodeDirty); Builder::Build returns the recorded exit code only after a command failure was recorded and never ExitSuccess after storing an error text. After a manifest-regeneration build that ran, RebuildManifest lets the real build go on only from a reset State (every go-on return behind a successful Build() passes State::Reset).',
         'not_decided': 'that the printed cycle is an actual cycle of the graph; completeness across dyndep re-scans.',
     },
     'C18': {
@@ -96,7 +96,7 @@ CLAIMS = {
                    'recorded mtime is the pre-spawn lock-file stat except for restat/generator/unknown; the plan '
                    'recurses into every input, wants exactly dirty nodes, adds all validations; a rebuilt manifest '
                    'is re-read before building; discovered paths are canonicalised before interning; scan/plan '
-                   'errors never become success. RealDiskInterface::Stat follows symlinks (stat/stat64, never lstat): every compared timestamp is that of the file content.',
+                   'errors never become success. RealDiskInterface::Stat follows symlinks (stat/stat64, never lstat): every compared timestamp is that of the file content. The output check returns its verdict after the loop over all outputs (from inside the loop only as dirty), also for phony edges.',
         'not_decided': 'equality of file contents with a from-scratch build over histories and schedules; anything '
                        'depending on real mtimes; correctness of the plan under dyndep surgery.',
     },
@@ -110,7 +110,7 @@ CLAIMS = {
                    'by the same key; the dirty relations are strict; deps are recorded with Stat() of the same '
                    'output; restat pruning uses == and falls back to the start time; AlreadyUpToDate == '
                    '!more_to_do() and an up-to-date plan returns success without reaching Build; the build log '
-                   'is reopened lazily in append mode after Close(). Plan::CleanNode prunes (un-want / recursion) only after RecomputeOutputsDirty re-examined that very edge. The validation nodes a mid-build re-scan reports are planned for every re-scanned dependent, dirty or not; the restat shortcut of the output check is stated over its three conditions, however they are stored.',
+                   'is reopened lazily in append mode after Close(). Plan::CleanNode prunes (un-want / recursion) only after RecomputeOutputsDirty re-examined that very edge. The validation nodes a mid-build re-scan reports are planned for every re-scanned dependent, dirty or not; the restat shortcut of the output check is stated over its three conditions, however they are stored. Outputs are statted after the edge\'s pending dyndep file was loaded (outputs it adds are statted too); a depfile\'s canonical length is stored into the object that is used afterwards.',
         'not_decided': 'that the times recorded at run time dominate the inputs\' times (clock / file system); '
                        'multi-session interplay.',
     },
@@ -124,7 +124,7 @@ CLAIMS = {
                    'dirty only with no inputs, no validations and a missing output, and adopts input mtimes only '
                    'while missing (max); CleanNode un-wants only under all-inputs-clean and outputs-clean, paired '
                    'with the counters, and the non-phony counter/status adjustments mirror EdgeWanted; edges whose '
-                   'outputs are ready are never inserted into the plan. Plan::CleanNode prunes (un-want / recursion) only after RecomputeOutputsDirty re-examined that very edge. The all-inputs-clean test of CleanNode asks Node::dirty() itself (or a trivial wrapper).',
+                   'outputs are ready are never inserted into the plan. Plan::CleanNode prunes (un-want / recursion) only after RecomputeOutputsDirty re-examined that very edge. The all-inputs-clean test of CleanNode asks Node::dirty() itself (or a trivial wrapper). What DependencyScan::RecomputeOutputsDirty reports to the restat prune is the value of the full output check all(most_recent_input) on every successful return.',
         'not_decided': 'equality of the executed command set with a reference make-semantics model.',
     },
     'C10': {
@@ -138,7 +138,7 @@ CLAIMS = {
                    '(a vanished discovered dep means rebuild, not error); deps are recorded for every output and a '
                    'failed extraction records nothing; depfile/gcc/msvc paths are canonicalised before interning; '
                    'strong typestate: a first scan ends with discovered deps spliced in or deps_missing_ set '
-                   '(violated today: known finding). With a deps type and outside a dry run no success return of FinishCommand avoids RecordDeps; CLParser consults the input-file-name filter only for lines the /showIncludes filter did not recognise.',
+                   '(violated today: known finding). With a deps type and outside a dry run no success return of FinishCommand avoids RecordDeps; CLParser consults the input-file-name filter only for lines the /showIncludes filter did not recognise. The follow-up output check (after discovered inputs are known) gives no clean verdict with a log entry and a newest input unless the logged mtime was compared with that input (C10.CC).',
         'not_decided': 'metamorphic equality with the variant of a scenario in which the dependency is declared.',
     },
     'C08': {
@@ -152,7 +152,7 @@ CLAIMS = {
                    'LOAD_ERROR; Restat writes only mtime, from Stat, for entries selected by full equality; Recompact '
                    'writes no field, drops/erases only paths reported dead; IsPathDead is true only as Stat==0 of a '
                    'path without producer; rewrites go Close -> temp file -> fclose -> ReplaceContent (unlink then '
-                   'rename, failures propagated). The log header is written exactly when a size/position query on the opened stream says the file is empty. LineReader searches for the newline up to the end of the buffered data (p + n = buf_end_ in linear form); Restat refreshes an entry only if no outputs were named or its output equals a named one (flag or control-flow idiom).',
+                   'rename, failures propagated). The log header is written exactly when a size/position query on the opened stream says the file is empty. LineReader searches for the newline up to the end of the buffered data (p + n = buf_end_ in linear form); Restat refreshes an entry only if no outputs were named or its output equals a named one (flag or control-flow idiom). The build log is closed before a generator edge is started; appending starts at a line boundary (D19).',
         'not_decided': 'equality of the loaded state with a model folded over the complete lines for all byte prefixes; '
                        'buffer arithmetic inside LineReader.',
     },
@@ -168,7 +168,7 @@ CLAIMS = {
                    'Load reads; oversized records are refused before any write and the stdio buffer holds a whole '
                    'record; all fwrites precede one fflush and memory is updated only after it succeeded; the '
                    '"unchanged" shortcut compares mtime, count and every element (no unscaled memcmp); recompaction '
-                   'removes a stale temp, resets all ids, drops only empty/non-live entries, swaps, then replaces. The deps-log header is written exactly when the opened file is empty; a path record enters the node table (set_id, nodes_.push_back) only after the checksum and duplicate-id tests passed.',
+                   'removes a stale temp, resets all ids, drops only empty/non-live entries, swaps, then replaces. The deps-log header is written exactly when the opened file is empty; a path record enters the node table (set_id, nodes_.push_back) only after the checksum and duplicate-id tests passed. RecordDeps calls RecordId only for a node whose id is still negative at the call.',
         'not_decided': '"exactly the complete records" for all byte strings; cross-session id consistency as a '
                        'run-time invariant; padding arithmetic values.',
     },
@@ -201,7 +201,7 @@ CLAIMS = {
                    'condition (known findings: include cycle, `-t targets depth 0`); nullable results (memchr, getenv, '
                    'fopen, Lookup*, GetDeps, GetBinding) are known non-null at every dereference; begin() of a container is '
                    'dereferenced only where it is known non-empty; std::get on the result variant is guarded by '
-                   'holds_alternative. Zero-expected rules are validated by planted controls on every run. A local fixed-size array handed to a call with an explicit length is accessed within its size (interval bounds with return models for read/fread; the would-be length returned by snprintf is not a bound). Loop progress: every loop whose condition compares a local position/pointer with a bound or tests the byte it points at advances that position on every trip (disjunctive abstract interpretation with find/memchr/strpbrk models, nv/loopprog.py; undecided loops are listed), and every input-driven loop (for(;;), while(ReadLine/PeekToken/getopt)) has no way round without a consuming call. The rule-variable cycle flag is armed before the nested evaluation and never disarmed; a NUL-terminated scan never steps over a byte that may be the terminator.',
+                   'holds_alternative. Zero-expected rules are validated by planted controls on every run. A local fixed-size array handed to a call with an explicit length is accessed within its size (interval bounds with return models for read/fread; the would-be length returned by snprintf is not a bound). Loop progress: every loop whose condition compares a local position/pointer with a bound or tests the byte it points at advances that position on every trip (disjunctive abstract interpretation with find/memchr/strpbrk models, nv/loopprog.py; undecided loops are listed), and every input-driven loop (for(;;), while(ReadLine/PeekToken/getopt)) has no way round without a consuming call. The rule-variable cycle flag is armed before the nested evaluation and never disarmed; a NUL-terminated scan never steps over a byte that may be the terminator. The format argument of every printf-like call (libc and ninja\'s own variadic reporters, found as a fixpoint from the v*printf sinks) is program text, never data (one reasoned exemption); unsigned `x - c` positions are guarded by `x >= c`; every loop around fread/read/fgets branches on the read\'s result or ferror().',
         'not_decided': 'memory safety in general (index arithmetic in ElideMiddle, CanonicalizePath, the in-place de-escaping writes of the depfile parser); termination of the re2c scanner loops beyond the NUL sentinel argument, of worklist / plan loops and of loops listed as undecided.',
     },
     'C16': {
@@ -227,7 +227,7 @@ CLAIMS = {
                    '(what stays reachable — mkdir, rspfile write/remove — is listed); command listings print an edge after '
                    'its inputs; the set of bytes EncodeJSONString copies verbatim excludes 0x00-0x1f, quote and backslash, '
                    'compdb printers use constant formats and PrintJSONString, print one object per input and an edge only if '
-                   'it has inputs.',
+                   'it has inputs. PrintJSONString writes only bytes that came out of EncodeJSONString; Builder::CleanupEdge (output removal) is called only inside Cleanup\'s loop over the runner\'s active edges or for a command killed by the interrupt, or under !dry_run; the console is locked only outside a dry run (D20).',
         'not_decided': 'that the listing of -n / -t commands equals the set a real build runs; JSON validity for non-UTF-8 bytes.',
     },
     'C20': {
@@ -242,7 +242,7 @@ CLAIMS = {
                    'regardless of the result, plan totals mirror command_edges_ under the same non-phony guard and are '
                    'cleared between builds; the console is locked/unlocked only for console-pool edges (and unconditionally '
                    'unlocked at BuildFinished), nothing is written while locked, held-back output keeps its explicit length '
-                   'and is flushed before the buffer is cleared. What is flushed on console unlock is cleared on every path before SetConsoleLocked returns; StripAnsiEscapeCodes walks the whole input in constant steps, copies every non-ESC byte and leaves its loop early only when ESC is the last byte. Only the Subprocess itself writes its pipe descriptor, and it closes the pipe only when read() returned no data.',
+                   'and is flushed before the buffer is cleared. What is flushed on console unlock is cleared on every path before SetConsoleLocked returns; StripAnsiEscapeCodes walks the whole input in constant steps, copies every non-ESC byte and leaves its loop early only when ESC is the last byte. Only the Subprocess itself writes its pipe descriptor, and it closes the pipe only when read() returned no data. LinePrinter::Print / PrintOrBuffer write or buffer their text on every path; stdout is set to line buffering unconditionally at the start of real_main (C20.O2).',
         'not_decided': 'non-interleaving and counter consistency as trace properties over schedules; elision and percentage arithmetic.',
     },
     'C07': {
@@ -255,7 +255,7 @@ CLAIMS = {
                    'then the depfile, finally the lock file; children are signalled by process group (except console '
                    'children), deleted afterwards, and destroying an unreaped subprocess waits for it; signal handlers make '
                    'no calls and store only to volatile sig_atomic_t; log records are flushed before success / memory '
-                   'updates and rewrites go through ReplaceContent. Cleanup covers every started, not yet reaped command (GetActiveEdges is a full-range loop over subproc_to_edge_).',
+                   'updates and rewrites go through ReplaceContent. Cleanup covers every started, not yet reaped command (GetActiveEdges is a full-range loop over subproc_to_edge_). ~SubprocessSet restores the signal handlers before the signal mask; an empty depfile is treated like a missing one (edge dirty).',
         'not_decided': 'a crash at an arbitrary instruction (SIGKILL), which needs the C08/C09 loaders and the dirty logic to '
                        'compose at run time; real-signal timing.',
     },
